@@ -102,7 +102,7 @@ def oracle(d, s, z):
 
 def run(prog, rep, tier):
     f = need(prog, AN + "sample")
-    S = Sym(prog)
+    S = Sym(prog, inline=inline_helpers(prog, "sempler.anm"))
     summ, _ = run_function(S, f)
     loops = [(k, v) for k, v in S.loopinfo.items() if v["func"] == f.qname]
     if len(loops) != 1:
